@@ -1,0 +1,141 @@
+//! Verification hook (compiled only under `cfg(kani)`): an association-list stand-in for
+//! `std::collections::HashMap` with the subset of its API this crate uses.
+//!
+//! Kani cannot execute std's `HashMap` (`RandomState::new` needs OS randomness and hashbrown's
+//! SIMD group probing does not finish under symbolic execution).  Under `cargo kani` the four
+//! `use std::collections::HashMap` lines of this crate are switched to this type; every other
+//! build uses std's map and never sees this file.  Semantics kept: keys are unique (`insert`
+//! replaces the value of an equal key and returns the old one), lookup is by `Eq`, equality of
+//! maps ignores order.  Iteration order is insertion order here and unspecified in std, so
+//! nothing may be concluded from the order.
+use std::borrow::Borrow;
+use std::fmt;
+
+pub struct HashMap<K, V> {
+    entries: Vec<(K, V)>,
+}
+
+impl<K, V> HashMap<K, V> {
+    pub fn new() -> Self {
+        HashMap {
+            entries: Vec::new(),
+        }
+    }
+    pub fn with_capacity(n: usize) -> Self {
+        HashMap {
+            entries: Vec::with_capacity(n),
+        }
+    }
+    pub fn len(&self) -> usize {
+        self.entries.len()
+    }
+    pub fn is_empty(&self) -> bool {
+        self.entries.is_empty()
+    }
+    pub fn keys(&self) -> impl Iterator<Item = &K> {
+        self.entries.iter().map(|(k, _)| k)
+    }
+    pub fn values(&self) -> impl Iterator<Item = &V> {
+        self.entries.iter().map(|(_, v)| v)
+    }
+    pub fn iter(&self) -> impl Iterator<Item = (&K, &V)> {
+        self.entries.iter().map(|(k, v)| (k, v))
+    }
+}
+
+impl<K: Eq, V> HashMap<K, V> {
+    pub fn insert(&mut self, key: K, value: V) -> Option<V> {
+        let mut i = 0;
+        while i < self.entries.len() {
+            if self.entries[i].0 == key {
+                return Some(std::mem::replace(&mut self.entries[i].1, value));
+            }
+            i += 1;
+        }
+        self.entries.push((key, value));
+        None
+    }
+    pub fn get<Q: ?Sized + Eq>(&self, key: &Q) -> Option<&V>
+    where
+        K: Borrow<Q>,
+    {
+        let mut i = 0;
+        while i < self.entries.len() {
+            if self.entries[i].0.borrow() == key {
+                return Some(&self.entries[i].1);
+            }
+            i += 1;
+        }
+        None
+    }
+    pub fn contains_key<Q: ?Sized + Eq>(&self, key: &Q) -> bool
+    where
+        K: Borrow<Q>,
+    {
+        self.get(key).is_some()
+    }
+}
+
+impl<K, V> Default for HashMap<K, V> {
+    fn default() -> Self {
+        Self::new()
+    }
+}
+
+impl<K: Clone, V: Clone> Clone for HashMap<K, V> {
+    fn clone(&self) -> Self {
+        HashMap {
+            entries: self.entries.clone(),
+        }
+    }
+}
+
+impl<K: fmt::Debug, V: fmt::Debug> fmt::Debug for HashMap<K, V> {
+    fn fmt(&self, f: &mut fmt::Formatter<'_>) -> fmt::Result {
+        f.debug_map().entries(self.iter()).finish()
+    }
+}
+
+impl<K: Eq, V: PartialEq> PartialEq for HashMap<K, V> {
+    fn eq(&self, other: &Self) -> bool {
+        if self.len() != other.len() {
+            return false;
+        }
+        self.iter().all(|(k, v)| other.get(k).map_or(false, |w| *v == *w))
+    }
+}
+
+impl<K: Eq, V> FromIterator<(K, V)> for HashMap<K, V> {
+    fn from_iter<T: IntoIterator<Item = (K, V)>>(iter: T) -> Self {
+        let mut m = HashMap::new();
+        for (k, v) in iter {
+            m.insert(k, v);
+        }
+        m
+    }
+}
+
+impl<K: Eq, V, const N: usize> From<[(K, V); N]> for HashMap<K, V> {
+    fn from(arr: [(K, V); N]) -> Self {
+        Self::from_iter(arr)
+    }
+}
+
+impl<K, V> IntoIterator for HashMap<K, V> {
+    type Item = (K, V);
+    type IntoIter = std::vec::IntoIter<(K, V)>;
+    fn into_iter(self) -> Self::IntoIter {
+        self.entries.into_iter()
+    }
+}
+
+impl<'a, K, V> IntoIterator for &'a HashMap<K, V> {
+    type Item = (&'a K, &'a V);
+    type IntoIter = std::iter::Map<std::slice::Iter<'a, (K, V)>, fn(&'a (K, V)) -> (&'a K, &'a V)>;
+    fn into_iter(self) -> Self::IntoIter {
+        fn split<K, V>(e: &(K, V)) -> (&K, &V) {
+            (&e.0, &e.1)
+        }
+        self.entries.iter().map(split as fn(&'a (K, V)) -> (&'a K, &'a V))
+    }
+}
